@@ -3,7 +3,6 @@ package rules
 import (
 	"fmt"
 	"go/ast"
-	"go/constant"
 	"go/token"
 	"go/types"
 	"sort"
@@ -2024,7 +2023,7 @@ func E3EllipseFrameRotation(c *core.Ctx, r *core.Report) {
 						// a constant factor scales the whole sum: (a + b) * 0.5
 						for _, pair := range [][2]ast.Expr{{x.X, x.Y}, {x.Y, x.X}} {
 							if tv, ok := info.Types[pair[0]]; ok && tv.Value != nil {
-								if constant.Sign(tv.Value) < 0 {
+								if numSign(tv.Value) < 0 {
 									walk(pair[1], -s)
 								} else {
 									walk(pair[1], s)
@@ -2062,7 +2061,7 @@ func E3EllipseFrameRotation(c *core.Ctx, r *core.Report) {
 						factors(u.X)
 						return
 					}
-					if tv, ok := info.Types[e]; ok && tv.Value != nil && constant.Sign(tv.Value) < 0 {
+					if tv, ok := info.Types[e]; ok && tv.Value != nil && numSign(tv.Value) < 0 {
 						neg = -neg
 					}
 				}
